@@ -8,6 +8,7 @@ import (
 	"strings"
 
 	"github.com/moorara/algo/lexer"
+	aparser "github.com/moorara/algo/parser"
 	"github.com/moorara/algo/parser/lr"
 
 	eparser "github.com/gardenbed/emerge/internal/ebnf/parser"
@@ -44,6 +45,18 @@ func (e cbEvent) String() string {
 
 var errSentinel = errors.New("verif sentinel callback error")
 
+// errSentinels: the errors a callback may return - a plain one, one that wraps another error, and ones that wrap / are an
+// error of the parser's own error type (as a callback that parses an included specification would return).
+var errSentinels = []error{
+	errSentinel,
+	fmt.Errorf("cannot include %q: %w", "other.ebnf", &aparser.ParseError{Description: "unexpected string \")\"", Pos: lexer.Position{Filename: "other.ebnf", Offset: 7, Line: 2, Column: 3}}),
+	&aparser.ParseError{Description: "nested failure", Cause: errors.New("inner cause")},
+	fmt.Errorf("outer: %w", fmt.Errorf("middle: %w", errors.New("innermost"))),
+}
+
+// sentinelFor picks the error injected at a given step.
+func sentinelFor(step int) error { return errSentinels[step%len(errSentinels)] }
+
 // runParseCallbacks runs Parser.Parse on text; failAt >= 0 makes the failAt-th callback return the sentinel.
 func runParseCallbacks(text string, failAt int) (log []cbEvent, err error, panicked any) {
 	panicked, _ = safely(func() {
@@ -57,14 +70,14 @@ func runParseCallbacks(text string, failAt int) (log []cbEvent, err error, panic
 			log = append(log, cbEvent{Tok: true, Lexeme: t.Lexeme, Kind: string(t.Terminal), Off: t.Pos.Offset, Line: t.Pos.Line, Col: t.Pos.Column})
 			step++
 			if step-1 == failAt {
-				return errSentinel
+				return sentinelFor(failAt)
 			}
 			return nil
 		}, func(i int) error {
 			log = append(log, cbEvent{Prod: i})
 			step++
 			if step-1 == failAt {
-				return errSentinel
+				return sentinelFor(failAt)
 			}
 			return nil
 		})
@@ -107,7 +120,7 @@ func runEvaluateNil(text string, failAt int, nilAt func(n int) bool) (calls []ev
 			calls = append(calls, call)
 			n++
 			if n-1 == failAt {
-				return nil, errSentinel
+				return nil, sentinelFor(failAt)
 			}
 			if nilAt != nil && nilAt(n-1) {
 				return nil, nil
@@ -353,7 +366,7 @@ func c18One(c *ctx, name, text string, inject bool) {
 				Observed: fmt.Sprintf("%d callbacks were made", len(g2)), Expected: fmt.Sprintf("parse stops at step %d: exactly %d callbacks", step, step+1)})
 			return
 		}
-		if err == nil || !errors.Is(err, errSentinel) {
+		if err == nil || !errors.Is(err, sentinelFor(step)) {
 			c.violate(violation{Case: name + "/inject", Input: map[string]any{"text": text, "failing_step": step, "event": want[step].String()},
 				Observed: fmt.Sprintf("Parse returned %v", err), Expected: "the callback's error (errors.Is)"})
 			return
@@ -366,7 +379,7 @@ func c18One(c *ctx, name, text string, inject bool) {
 			c.inconclusive("panic (C14's business)")
 			return
 		}
-		if len(c2) != step+1 || err == nil || !errors.Is(err, errSentinel) {
+		if len(c2) != step+1 || err == nil || !errors.Is(err, sentinelFor(step)) {
 			c.violate(violation{Case: name + "/inject-eval", Input: map[string]any{"text": text, "failing_evaluation": step, "production": wantCalls[step].Prod},
 				Observed: fmt.Sprintf("%d evaluation calls, returned error %v", len(c2), err), Expected: fmt.Sprintf("stops after %d calls and returns the callback's error", step+1)})
 			return
